@@ -59,7 +59,7 @@ Definition fval_eqb (a b : fval) : bool :=
   match a, b with
   | FvOne x, FvOne y => sval_eqb x y
   | FvOpt x, FvOpt y => option_eqb sval_eqb x y
-  | FvSeq x, FvSeq y => list_eqb str_eqb x y
+  | FvSeq x, FvSeq y => list_eqb sval_eqb x y
   | _, _ => false
   end.
 
